@@ -505,6 +505,27 @@ impl Prop for P {
                 }
             }
         }
+        // many streams (the property says "any number"): k = 63, 64, 65, 70, 130 tiny streams
+        for &k in &[63usize, 64, 65, 70, 130] {
+            for variant in 0..3 {
+                let ss: Vec<Kv> = (0..k).map(|i| {
+                    let mut v: Kv = vec![(b"common".to_vec(), i as u64)];
+                    match variant {
+                        0 => {}
+                        1 => v.push((format!("own{:03}", i).into_bytes(), 1)),
+                        _ => if i % 2 == 0 { v.push((b"even".to_vec(), 2)) },
+                    }
+                    v.sort();
+                    v
+                }).collect();
+                let st = show_streams(&ss);
+                for op in OPS {
+                    let kinds = format!("raw:{}", "f".repeat(k));
+                    cases.push(format!("{}\t{}\t{}", op, kinds, st));
+                    stats.bump("many_streams");
+                }
+            }
+        }
         // long keys: shared prefixes of 7, 8, 9 and 16 bytes followed by suffixes of different lengths, so that
         // any ordering shortcut on a key prefix, a length or a machine word is exercised
         let mut long_pool: Vec<Vec<u8>> = vec![];
